@@ -419,7 +419,7 @@ def run_C02(ctx):
 
 def run_C08(ctx):
     q = ctx.quick
-    plan = [("rel", p, 2, 1, {}) for p in ("H2", "H3", "H5", "D1", "D3")] + [("rel", "PC", 2 if q else 3, 0, {}), ("rel", "R1", 2 if q else 3, 0, RF), ("rel", "R2", 2 if q else 3, 0, RF)]
+    plan = [("rel", p, 2, 1, {}) for p in ("H2", "H3", "H5", "D1", "D3")] + [("rel", "PC", 2, 0, {}), ("rel", "R1", 2 if q else 3, 0, RF), ("rel", "R2", 2 if q else 3, 0, RF)] + ([] if q else [("rel", "PCs", 3, 0, {})])
     plan += [("dbg", "H2", 1 if q else 2, 1, {})]
     # frees racing with the owner's exit: nothing may be lost either (final leak check of the E programs)
     plan += [("rel", "E1", 2, 0, {}), ("rel", "E1", 2, 0, RF), ("rel", "E5", 2, 0, RF)]
